@@ -53,7 +53,9 @@ def leaves(a, acc):
 
 
 def gen_rhs(rng, avail, depth):
-    """random expression whose identifiers are quantities from `avail`"""
+    """random expression whose identifiers are quantities from `avail` (one in six is a bare identifier)"""
+    if avail and rng.random() < 0.17:
+        return ('q', rng.choice(avail))
     def sub(a):
         if a is None:
             return None
@@ -81,6 +83,9 @@ def gen_system(rng, ncomp=3, nq=8, depth=3, ode=True):
         dyn = [p.idx for p in qs if p.kind in ('state', 'voi')] + [p.idx for p in qs if p.kind == 'alg' and p.idx < q.idx]
         if q.kind == 'const':
             q.init = rng.choice(['1', '2', '0.5', '3.5', '-1', '1E1', '2e-1', '7', '-0.25', '4.0'])
+            cands = [c for c in consts if qs[c].kind == 'const' and qs[c].dim == q.dim and qs[c].init_from is None]
+            if cands and rng.random() < 0.3:
+                q.init_from = rng.choice(cands); q.init = None
         elif q.kind == 'cconst':
             q.rhs = gen_rhs(rng, consts, rng.randint(1, depth))
         elif q.kind == 'state':
@@ -281,8 +286,12 @@ def ground_truth(sysd, t0=0.0):
     if sysd['ode']:
         qs[0].base = t0
     for q in qs:
-        if q.kind == 'const':
+        if q.kind == 'const' and q.init_from is None:
             q.base = float(q.init) * scale(q.members[q.home][1])
+    for q in qs:
+        if q.kind == 'const' and q.init_from is not None:
+            p = qs[q.init_from]
+            q.base = (p.base / scale(p.members[q.home][1])) * scale(q.members[q.home][1])
     for q in qs:
         if q.kind == 'state':
             if q.init_from is not None:
